@@ -20,7 +20,9 @@ MODES = {
 }
 
 MOVED = ["1;35", "1;36", "1;34", "1;33", "2;35", "3;36", "38;5;208", "38;2;10;20;30;48;5;17", "1;4;9;38;5;99", "7;35",
-         "35", "36;1", "48;5;52;38;5;231", "5;34", "8;33", "1;2;3;4;5;7;9;36"]
+         "35", "36;1", "48;5;52;38;5;231", "5;34", "8;33", "1;2;3;4;5;7;9;36",
+         # bright colours (aixterm codes) as foreground and as background
+         "95", "30;103", "97;100", "1;93;104", "91;107", "90;101", "96;102", "94;105", "92;106", "30;47", "37;40"]
 
 
 def cell_rec(cs):
@@ -46,8 +48,18 @@ def run(tier):
     V = core.Verdict(PID)
     rnd = random.Random(core.seed())
     cov, covstats = stream.cover_histories(pairs=False)
-    cov = [h for h in cov if any(l["c"] in ("minus", "plus", "zero") for l in h)]
-    hists = rnd.sample(cov, min(len(cov), 500 if tier == "quick" else 6000))
+    # stratified by the kinds of section a history contains (so that mode-only, empty, binary ... sections, which
+    # have no hunk, are always present next to histories with hunks)
+    by_kind = {}
+    for h in cov:
+        if len(h) < 2:
+            continue
+        key = tuple(sorted({l["kd"] for l in h if l.get("kd")}))
+        by_kind.setdefault(key, []).append(h)
+    per = max(3, (500 if tier == "quick" else 6000) // max(1, len(by_kind)))
+    hists = []
+    for key in sorted(by_kind):
+        hists += rnd.sample(by_kind[key], min(per, len(by_kind[key])))
     jobs = []
     for i, h in enumerate(hists):
         for m in (list(MODES) if tier == "thorough" else [list(MODES)[i % len(MODES)], list(MODES)[(i + 3) % len(MODES)]]):
@@ -61,6 +73,12 @@ def run(tier):
         h, m, variant = job
         data, texts = gitskin.concretise(h, payload=ws_payload)
         ctexts = gitskin.colourise(h, texts, variant)
+        if variant == 3 and m != "color-only":
+            # files with CRLF line endings: git puts the reset between CR and LF; the plain input has plain CRLF
+            texts = [t + "\r" for t in texts]
+            ctexts = [(t[:-len(R)] + "\r" + R2) if t.endswith(R) else t + "\r"
+                      for t in ctexts for R in ["\x1b[0m"] for R2 in [["\x1b[0m", "\x1b[m", "\x1b[0m\x1b[m"][len(t) % 3]]]
+            data = "".join(t + "\n" for t in texts).encode()
         cdata = "".join(t + "\n" for t in ctexts).encode()
         return texts, ctexts, core.run_delta(MODES[m], data), core.run_delta(MODES[m], cdata)
 
